@@ -206,7 +206,7 @@ fn build(nm: &Names, cfg: &Cfg) -> SApp {
         for d in &nm.delegators {
             router.bank.init_balance(storage, &Addr::unchecked(d), vec![coin(funds, DENOM), coin(5, FOREIGN)]).unwrap();
         }
-        router.staking.setup(storage, StakingInfo { bonded_denom: DENOM.into(), unbonding_time: cfg.unbonding, apr: Decimal::percent(APR_PCT as u64) }).unwrap();
+        router.staking.setup(storage, StakingInfo { bonded_denom: DENOM.into(), unbonding_time: cfg.unbonding, apr: Decimal::percent(cfg.apr_pct as u64) }).unwrap();
         for (i, v) in nm.validators.iter().take(2).enumerate() {
             router
                 .staking
@@ -363,6 +363,8 @@ pub struct Cfg {
     /// payouts of matured unbondings are judged under this property too (C16: only where the
     /// exploration is built so that what is paid is decided by the slashes alone)
     pub payout_is_home: bool,
+    /// annual rate in percent (a staking parameter fixed at setup)
+    pub apr_pct: u32,
 }
 
 fn pct_rat(p: u32) -> Rat {
@@ -398,7 +400,7 @@ pub fn step(app: &mut SApp, nm: &Names, st: &SState, op: &SOp, cfg: &Cfg, ops_al
         v
     };
     let mut path = st.path.clone();
-    let case = |what: &str, extra: Value| json!({"engine": "staking", "history": hist(&st.path, op), "clause": what, "detail": extra, "unbonding_s": cfg.unbonding, "initial_funds": cfg.funds.to_string()});
+    let case = |what: &str, extra: Value| json!({"engine": "staking", "history": hist(&st.path, op), "clause": what, "detail": extra, "unbonding_s": cfg.unbonding, "apr_pct": cfg.apr_pct, "initial_funds": cfg.funds.to_string()});
     let d_addr = |d: u8| Addr::unchecked(&nm.delegators[d as usize]);
     let denom_of = |x: u8| if x == 0 { DENOM } else { FOREIGN };
     // ---- run the operation
@@ -959,7 +961,7 @@ pub fn explore(ctx: &Ctx, nm: &Names, alpha: &[SOp], max_depth: usize, cfg: &Cfg
                     let mut app = build(nm, cfg);
                     let b0 = app.block_info();
                     app.set_block(b0);
-                    let quiet_cfg = Cfg { check_rewards: false, prop: cfg.prop.clone(), funds: cfg.funds, unbonding: cfg.unbonding, payout_is_home: false };
+                    let quiet_cfg = Cfg { check_rewards: false, prop: cfg.prop.clone(), funds: cfg.funds, unbonding: cfg.unbonding, payout_is_home: false, apr_pct: cfg.apr_pct };
                     let mut cur = SState { storage: app.storage().clone(), block: app.block_info(), hidden: Hidden::default(), obs: Obs::default(), path: vec![] };
                     cur.obs = observe(&app, nm).unwrap_or_default();
                     let mut good = true;
@@ -1182,7 +1184,7 @@ fn maturity_sweep(ctx: &Ctx, nm: &Names, states: &[SState], alpha: &[SOp], cfg: 
 
 pub fn run_c14(ctx: &Ctx) -> i32 {
     let nm = names();
-    let cfg = Cfg { check_rewards: false, prop: "C14".into(), funds: 10, unbonding: UNBONDING, payout_is_home: false };
+    let cfg = Cfg { check_rewards: false, prop: "C14".into(), funds: 10, unbonding: UNBONDING, payout_is_home: false, apr_pct: APR_PCT };
     let reduced = alphabet_c14(Tier::Quick, false);
     let (d_reduced, d_full) = ctx.tier.pick((6, 0), (7, 6));
     let out1 = explore(ctx, &nm, &reduced, d_reduced, &cfg, true, ctx.tier.pick(600_000, 3_000_000));
@@ -1196,6 +1198,13 @@ pub fn run_c14(ctx: &Ctx) -> i32 {
         n2 = invalid_sweep(ctx, &nm, &out2.all, &full, &cfg) + maturity_sweep(ctx, &nm, &out2.all, &full, &cfg);
         outs.push(("full-alphabet", &out2, full.iter().map(sop_label).collect::<Vec<_>>()));
     }
+    // an annual rate of zero (a staking parameter like any other): everything about delegations,
+    // unbondings and the refusal of invalid operations holds unchanged
+    let cfg0 = Cfg { check_rewards: false, prop: "C14".into(), funds: 10, unbonding: UNBONDING, payout_is_home: false, apr_pct: 0 };
+    let out0 = explore(ctx, &nm, &reduced, ctx.tier.pick(3, 5), &cfg0, true, 1_000_000);
+    let n0 = invalid_sweep(ctx, &nm, &out0.all, &reduced, &cfg0);
+    outs.push(("rate-zero", &out0, reduced.iter().map(sop_label).collect::<Vec<_>>()));
+    let n1 = n1 + n0;
     finish(ctx, outs, n1 + n2, json!({"maturity_sweep": "in every state with two or more pending unbondings: a block update landing exactly on the earliest maturity, directly and after a 50% slash of either validator", "depth_reduced_alphabet": d_reduced, "depth_full_alphabet": d_full, "invalid_operations_tried_in_every_state": invalid_ops().iter().map(sop_label).collect::<Vec<_>>()}), std_assumptions())
 }
 
@@ -1217,7 +1226,7 @@ pub fn alphabet_c16() -> Vec<SOp> {
 
 pub fn run_c16(ctx: &Ctx) -> i32 {
     let nm = names();
-    let cfg = Cfg { check_rewards: false, prop: "C16".into(), funds: 10, unbonding: UNBONDING, payout_is_home: false };
+    let cfg = Cfg { check_rewards: false, prop: "C16".into(), funds: 10, unbonding: UNBONDING, payout_is_home: false, apr_pct: APR_PCT };
     let alpha = alphabet_c16();
     let depth = ctx.tier.pick(4, 5);
     let out = explore(ctx, &nm, &alpha, depth, &cfg, true, 2_000_000);
@@ -1276,7 +1285,7 @@ pub fn run_c16(ctx: &Ctx) -> i32 {
         SOp::Slash { v: 0, pct: 10 },
         SOp::Undelegate { d: 1, v: 0, amt: big, denom: 0 },
     ];
-    let cfg2 = Cfg { check_rewards: false, prop: "C16".into(), funds: 10 * big, unbonding: UNBONDING, payout_is_home: false };
+    let cfg2 = Cfg { check_rewards: false, prop: "C16".into(), funds: 10 * big, unbonding: UNBONDING, payout_is_home: false, apr_pct: APR_PCT };
     let out2 = explore(ctx, &nm, &alpha2, ctx.tier.pick(4, 6), &cfg2, false, 2_000_000);
     // an unbonding period of zero: an unbonding is mature the moment it is queued, yet pending (and
     // to be slashed) until the next block update pays it
@@ -1290,7 +1299,7 @@ pub fn run_c16(ctx: &Ctx) -> i32 {
         SOp::Advance { secs: 0 },
         SOp::Advance { secs: 1 },
     ];
-    let cfg3 = Cfg { check_rewards: false, prop: "C16".into(), funds: 10, unbonding: 0, payout_is_home: true };
+    let cfg3 = Cfg { check_rewards: false, prop: "C16".into(), funds: 10, unbonding: 0, payout_is_home: true, apr_pct: APR_PCT };
     let out3 = explore(ctx, &nm, &alpha3, ctx.tier.pick(4, 6), &cfg3, false, 2_000_000);
     finish(
         ctx,
@@ -1330,7 +1339,7 @@ pub fn alphabet_c15(tier: Tier) -> Vec<SOp> {
 
 pub fn run_c15(ctx: &Ctx) -> i32 {
     let nm = names();
-    let cfg = Cfg { check_rewards: true, prop: "C15".into(), funds: 1000, unbonding: UNBONDING, payout_is_home: false };
+    let cfg = Cfg { check_rewards: true, prop: "C15".into(), funds: 1000, unbonding: UNBONDING, payout_is_home: false, apr_pct: APR_PCT };
     let alpha = alphabet_c15(ctx.tier);
     let depth = ctx.tier.pick(5, 6);
     let out = explore(ctx, &nm, &alpha, depth, &cfg, true, 3_000_000);
@@ -1424,7 +1433,7 @@ pub fn run_c15(ctx: &Ctx) -> i32 {
         SOp::Withdraw { d: 1, v: 0 },
         SOp::Undelegate { d: 1, v: 0, amt: big, denom: 0 },
     ];
-    let cfg2 = Cfg { check_rewards: true, prop: "C15".into(), funds: 10 * big, unbonding: UNBONDING, payout_is_home: false };
+    let cfg2 = Cfg { check_rewards: true, prop: "C15".into(), funds: 10 * big, unbonding: UNBONDING, payout_is_home: false, apr_pct: APR_PCT };
     let out2 = explore(ctx, &nm, &alpha2, ctx.tier.pick(5, 6), &cfg2, false, 2_000_000);
     // small odd stakes halved by a slash (1.5 and 2.5 tokens) held for a century: what the fractional
     // part of a stake earns adds up to whole tokens only over such a span
@@ -1436,7 +1445,7 @@ pub fn run_c15(ctx: &Ctx) -> i32 {
         SOp::Withdraw { d: 0, v: 0 },
         SOp::Withdraw { d: 1, v: 0 },
     ];
-    let cfg3 = Cfg { check_rewards: true, prop: "C15".into(), funds: 10, unbonding: UNBONDING, payout_is_home: false };
+    let cfg3 = Cfg { check_rewards: true, prop: "C15".into(), funds: 10, unbonding: UNBONDING, payout_is_home: false, apr_pct: APR_PCT };
     let out3 = explore(ctx, &nm, &alpha3, ctx.tier.pick(5, 6), &cfg3, false, 2_000_000);
     finish(
         ctx,
@@ -1456,9 +1465,9 @@ pub fn replay(ctx: &Ctx, case: &Value) {
     let nm = names();
     let prop = ctx.id.clone();
     let (cfg, mut all) = match prop.as_str() {
-        "C15" => (Cfg { check_rewards: true, prop: prop.clone(), funds: 1000, unbonding: UNBONDING, payout_is_home: false }, alphabet_c15(Tier::Thorough)),
-        "C16" => (Cfg { check_rewards: false, prop: prop.clone(), funds: 10, unbonding: UNBONDING, payout_is_home: false }, alphabet_c16()),
-        _ => (Cfg { check_rewards: false, prop: prop.clone(), funds: 10, unbonding: UNBONDING, payout_is_home: false }, alphabet_c14(Tier::Thorough, true)),
+        "C15" => (Cfg { check_rewards: true, prop: prop.clone(), funds: 1000, unbonding: UNBONDING, payout_is_home: false, apr_pct: APR_PCT }, alphabet_c15(Tier::Thorough)),
+        "C16" => (Cfg { check_rewards: false, prop: prop.clone(), funds: 10, unbonding: UNBONDING, payout_is_home: false, apr_pct: APR_PCT }, alphabet_c16()),
+        _ => (Cfg { check_rewards: false, prop: prop.clone(), funds: 10, unbonding: UNBONDING, payout_is_home: false, apr_pct: APR_PCT }, alphabet_c14(Tier::Thorough, true)),
     };
     all.extend(invalid_ops());
     for v in 0..3u8 {
@@ -1477,6 +1486,9 @@ pub fn replay(ctx: &Ctx, case: &Value) {
     let hist: Vec<SOp> = case["history"].as_array().cloned().unwrap_or_default().iter().map(|o| sop_parse(o.as_str().unwrap_or(""), &all)).collect();
     if hist.iter().any(|o| matches!(o, SOp::Delegate { amt, .. } if *amt >= big)) {
         cfg.funds = 10 * big;
+    }
+    if let Some(a) = case["apr_pct"].as_u64() {
+        cfg.apr_pct = a as u32;
     }
     if let Some(u) = case["unbonding_s"].as_u64() {
         cfg.unbonding = u;
